@@ -233,8 +233,15 @@ class Hierarchy(Contract):
             ex.oblige(p1, "answer:every-qualifying-node-of-every-prefix-is-represented", f, None)
 
 
+def set_contains(ex, p, ref, k, ln):
+    if isinstance(k, Opt):
+        k = ex.unwrap(k, p, "member looked up in the answer", ln)
+    return z3.Select(p.w["__dom"], to_z3(k))
+
+
 def install(lib):
     lib.map_store = set_add
+    lib.map_contains = set_contains
     _builtin = lib.builtin
 
     def builtin(ex, name, args, kw, p, fctx, ln):
